@@ -73,7 +73,15 @@ def rule_sel_item(ctx):
         for loop in fn.walk(lambda x: x['k'] == 'for'):
             ity = loop['iter'].get('ty', '') + loop['pat'].get('ty', '')
             if 'Selection' not in ity:
-                continue
+                # a private record that carries the selection (`Vec<&SpreadOnVariant>`): look at its field types
+                carried = False
+                for apath, a_ in ctx.crate('codegen').adts.items():
+                    if apath.split('::')[-1] in re.findall(r'[A-Za-z_][A-Za-z0-9_]*', ity):
+                        for v_ in a_.get('variants', []):
+                            if any('Selection' in (f_.get('ty') or '') for f_ in v_.get('fields', [])):
+                                carried = True
+                if not carried:
+                    continue
             bound = pat_hids(loop['pat'])
             for call in walk(loop['body']):
                 if call['k'] not in ('call', 'mcall'):
@@ -101,8 +109,8 @@ def rule_sel_item(ctx):
                         else:
                             obs.append(bad('SEL-ITEM', inst, 'inside a loop over selections the expanded sub-selection does not depend on the loop item (loop-invariant argument)',
                                            call.get('sp', ''), 'with two inline fragments on one type the first one\'s fields are emitted twice and the second one\'s are lost'))
-    if n < 2:
-        obs.append(bad('SEL-ITEM', 'floor', 'anchor-missing: expected >= 2 sub-selection expansions inside selection loops, found %d' % n))
+    if n < 1:
+        obs.append(bad('SEL-ITEM', 'floor', 'anchor-missing: no sub-selection expansion inside a loop over selections found'))
     return obs
 
 
@@ -783,8 +791,9 @@ def rule_derive_keep(ctx):
     for fn in ctx.crate('codegen').all_fns():
         if fn.from_macro or not (fn.d.get('impl_self') or '').endswith('GraphQLClientCodegenOptions'):
             continue
-        t = ctx.pv.eval(fn, fn.body, H.sym_env(fn), 0)
-        if not ({'GraphQLClientCodegenOptions.variables_derives', 'GraphQLClientCodegenOptions.response_derives'} & TM.fields_in(t)) or 'Iterator' not in fn.d.get('output', ''):
+        # the public accessors of the two derive lists (public API: their names are stable; the private fields behind them
+        # may be renamed)
+        if not fn.path.endswith(('::all_variable_derives', '::all_response_derives', '::additional_response_derives')) or 'Iterator' not in fn.d.get('output', ''):
             continue
         n += 1
         inst = short(fn.path)
